@@ -274,7 +274,7 @@ def family(thorough: bool):
             recs(ATOMS_SMALL, (2,)), (t for t in recs(tiny, (3,)) if width(t) <= 5),
             (("rec", (BIT, BV(2)), (1, 1)), ("rec", (BV(2), BOOL, BIT), (1, 2)), ("rec", (BV(3), BIT), (2, 0))),
             trecs((2,), TREC_SHAPES[:2]), bf_repr)))
-        partner = ATOMS_SMALL + (S2, ENUM_U2, UFIX_0_m1)
+        partner = ATOMS_SMALL + (ENUM_U2,)
     else:
         inner_atoms = ATOMS_MID
         L1m = list(_dedupe(itertools.chain(
@@ -282,7 +282,7 @@ def family(thorough: bool):
             recs(ATOMS_SMALL + (S2, ENUM_U2), (2,)), (t for t in recs(ATOMS_SMALL, (3,)) if width(t) <= 6),
             recs(tiny, (2,), splits_for=only_inherited),
             trecs((1, 2), TREC_SHAPES[:3]), bf_repr)))
-        partner = A
+        partner = ATOMS_MID + (FLAG_BV3, SFIX_1_m1)
     L1m = [t for t in L1m if width(t) <= maxw - 1]
     L1set = set(L1m)
     # a spread of representatives (one per kind / width) for the quadratic strata
